@@ -8,25 +8,24 @@ from vt import loader, sched
 LEVEL = 'other'
 EXPLANATION = (
     'CrossHair (symbolic execution, z3) runs the real gear.time_limited_max_size_cache.TimeLimitedMaxSizeCache.lookup for '
-    'up to 3 concurrent lookup tasks on the real asyncio scheduler under a director that controls the load coroutine '
+    'up to 3 (quick: 2) concurrent lookup tasks on the real asyncio scheduler under a director that controls the load coroutine '
     '(completes it with a value or LoadError), the monotonic clock, and task cancellation. num_slots, lifetime, the action '
     'of each step (lookup key / complete or fail the oldest or newest pending load / advance clock / cancel task i), keys, '
     'clock increments and per-step drain bits are symbolic. Asserted: never more than num_slots entries; returned values '
     'younger than lifetime and of the right key; at most one load per key in flight; a lookup raises only LoadError of a '
     'load of its key or CancelledError if itself was cancelled; every lookup finishes once loads complete. Two sub-families '
     '(cancels hitting only load leaders / only followers) are run separately so each mechanism is its own obligation; counterexamples are re-run on the stock '
-    'asyncio loop against the real class. Only "Confirmed over all paths" discharges a shard. Bounded: 2 keys, 1..2 slots, '
-    '3 tasks, k=4 steps (quick) / k=5 (thorough).'
+    'asyncio loop against the real class. Only "Confirmed over all paths" discharges a shard. Bounded: 2 keys, 1..2 slots; '
+    'quick 2 tasks k=4 steps; thorough 3 tasks k=4 and 2 tasks k=5.'
 )
 SRC = 'gear/gear/time_limited_max_size_cache.py'
 HM = 'harness.C26_cache'
 MODES = {0: 'bounded / fresh / single-flight / fails-only-own-caller / live over all schedules',
          1: 'cancelling the leader of a shared load does not fail the other callers (cancels hit load leaders only)',
          2: 'cancelling a follower of a shared load does not fail the other callers (cancels hit followers only)'}
-NT = 3
 
 
-def params(k):
+def params(k, NT):
     H = importlib.import_module(HM)
     n = range(1, k)
     return ([('slots', 'int', 1, 2), ('lifetime', 'int', 1, H.LMAX)] + [(f'a{i}', 'int', 0, 5 + min(i, NT)) for i in n]
@@ -47,9 +46,9 @@ def describe(a, meta):
             + '; '.join(s + ('+drain' if d else '') for s, d in zip(steps, dr)))
 
 
-def group(k, mode, shard_on):
-    return (mode, sched.gen_shards(f'C26_k{k}m{mode}', HM, params(k), shard_on, entry=(f'check_{NT}_{k}', f'reach_{NT}_{k}'),
-                                   const={'mode': mode}, prefix=f'k{k}m{mode}_', meta={'nt': NT, 'k': k, 'mode': mode})[1])
+def group(NT, k, mode, shard_on):
+    return (mode, sched.gen_shards(f'C26_n{NT}k{k}m{mode}', HM, params(k, NT), shard_on, entry=(f'check_{NT}_{k}', f'reach_{NT}_{k}'),
+                                   const={'mode': mode}, prefix=f'n{NT}k{k}m{mode}_', meta={'nt': NT, 'k': k, 'mode': mode})[1])
 
 
 def run(R):
@@ -61,15 +60,16 @@ def run(R):
                     R.encode(f'{SRC}:{f.lineno} {n.name}.{f.name}', ast.get_source_segment(text, f))
     B = [False, True]
     A1 = list(range(0, 7))
+    A2 = list(range(0, 8))
     if R.tier == 'quick':
         pct = 240
-        groups = [group(4, 0, {'a1': A1, 'd0': B, 'd1': B}), group(3, 1, {'d0': B}), group(3, 2, {'d0': B})]
-        R.bounds = {'keys': 2, 'num_slots': '1..2', 'lifetime': '1..4', 'tasks': 3, 'steps': 'k=4', 'clock increment': '0..6'}
+        groups = [group(2, 4, 0, {'a1': A1, 'd0': B, 'd1': B}), group(2, 3, 1, {'d0': B}), group(2, 3, 2, {'d0': B})]
+        R.bounds = {'keys': 2, 'num_slots': '1..2', 'lifetime': '1..4', 'tasks': 2, 'steps': 'k=4', 'clock increment': '0..6'}
     else:
         pct = 1300
-        groups = [group(4, 0, {'a1': A1, 'd0': B, 'd1': B}), group(5, 0, {'a1': A1, 'd0': B, 'd1': B, 'slots': [1, 2]}),
-                  group(3, 1, {'d0': B}), group(3, 2, {'d0': B}), group(4, 1, {'d0': B, 'd1': B}), group(4, 2, {'d0': B, 'd1': B})]
-        R.bounds = {'keys': 2, 'num_slots': '1..2', 'lifetime': '1..4', 'tasks': 3, 'steps': 'k=4 and k=5', 'clock increment': '0..6'}
+        groups = [group(3, 4, 0, {'a1': A1, 'a2': A2, 'd0': B, 'd1': B}), group(2, 5, 0, {'a1': A1, 'a2': A2, 'd0': B, 'd1': B}),
+                  group(3, 3, 1, {'d0': B}), group(3, 3, 2, {'d0': B}), group(2, 4, 1, {'d0': B, 'd1': B}), group(2, 4, 2, {'d0': B, 'd1': B})]
+        R.bounds = {'keys': 2, 'num_slots': '1..2', 'lifetime': '1..4', 'shapes': '(3 tasks, k=4), (2 tasks, k=5)', 'clock increment': '0..6'}
     R.assume('prometheus_client metrics are inert; prometheus_async.aio.time(metric, future) (package absent from the sandbox) is '
              'modelled as a coroutine that awaits the future and observes in a finally block',
              'time.monotonic_ns is the director clock (integers); it advances only at quiescent points (callback latency = 0 '
